@@ -29,6 +29,7 @@ func c04(c *Ctx) {
 	r.Decides("the plugin's switch over the core status covers every status constant and releases the group only in the Success case")
 	r.Decides("in strict mode (once-satisfied exemption aside) Unreserve and AfterPostFilter reject the whole gang group before returning")
 	r.Decides("the four member maps of a gang are accessed only under the gang lock")
+	r.Decides("the once-satisfied exemption from rejection applies to the once-satisfied match policy only; every PodGroup add/update event re-initialises the gang from the new object")
 	r.Declines("the counting itself (at least minMember members) and interleavings across several plugin calls")
 
 	// ---- PARTITION
